@@ -470,11 +470,6 @@ impl V {
             let is_last = i + 1 == terms.len();
             self.flow.set((after_match, prov));
             let before = cur.clone();
-            if let Term::Match(_) = t {
-                if i > 0 && matches!(&terms[i - 1], Term::Access(Src::Param, _)) && self.fn_block_depth.get() > 0 {
-                    return Err("match on `$` inside a nested block (open finding: it narrows the block's parameter)".into());
-                }
-            }
             if let Term::Match(p) = t {
                 let maybe_nil = before.contains_nil() && !before.is_nil();
                 let field_access = i > 0 && matches!(&terms[i - 1], Term::Access(_, a) if !a.is_empty());
@@ -734,9 +729,6 @@ impl V {
                 if ty.is_never() {
                     return Err("binding a tail call".into());
                 }
-                if matches!(c.terms.last(), Some(Term::Access(Src::Param, _))) && self.fn_block_depth.get() > 0 {
-                    return Err("match on `$` inside a nested block (open finding: it narrows the block's parameter)".into());
-                }
                 env.kill_pending();
                 if fs_out.1 && !fs_out.0 {
                     self.prov_matches.set(self.prov_matches.get() + 1);
@@ -876,6 +868,13 @@ impl V {
         for v in cap.vars.iter_mut() {
             v.prov = false;
             v.used.set(false);
+        }
+        // open finding: the labels of the parameter's tuple type hide outer variables of the same
+        // name from the capture analysis (`x = 1, f = #[x: 'int] { x }` is rejected with
+        // VariableUndefined) although the parameter is only reachable through `$`
+        if let Ty::Tup(_, fs) = param {
+            let labels: Vec<&String> = fs.iter().filter_map(|(l, _)| l.as_ref()).collect();
+            cap.vars.retain(|v| !labels.contains(&&v.name));
         }
         let Some(body) = body else {
             if param.is_nil() {
